@@ -145,6 +145,27 @@ pub fn main(args: &crate::Args) {
             }
         }
     }
+    // VarDCT shapes through the restoration filters (their SIMD row kernels have head / tail handling of their own):
+    // every width 1..33 (thorough: 1..70) x heights around the filter support x {Gabor, EPF 1/2/3 iterations, both}
+    {
+        let wmax = if quick { 33 } else { 70 };
+        for w in 1..=wmax {
+            for h in [1usize, 2, 7, 8, 9, 17] {
+                if quick && !(w <= 9 || w % 4 == 1 || h == 9) {
+                    continue;
+                }
+                for (k, (filters, iters)) in [(true, 0u32), (true, 1), (true, 2), (true, 3)].into_iter().enumerate() {
+                    let mut t = crate::explore::Tape::default();
+                    let mut c = crate::c17::cfg_from(&mut t);
+                    c.size = (w, h);
+                    c.pattern = 5;
+                    let spec = crate::c17::spec_of(&c, seed ^ 0xf1);
+                    let bytes = spec.write_codestream_with(&jxlw::jpeg::StreamOpts { filters, epf_iters: iters, alpha_bits: if (w + h) % 3 == 0 { 8 } else { 0 }, ..Default::default() });
+                    cases.push((bytes, 100, 0, format!("vardct-shape:{w}x{h}:f{k}")));
+                }
+            }
+        }
+    }
     // corpus streams (multi-frame, blending, multi-group, containers) incl. the real file
     for it in crate::corpus::corpus() {
         cases.push((it.bytes, 100, 0, format!("corpus:{}", it.name)));
